@@ -454,6 +454,12 @@ func runCase(c string) string {
 		return jbadRun(f)
 	case "popt":
 		return poptRun(f[1], vh.UnHex(f[2]), f[3:])
+	case "rerr":
+		if len(f) < 4 {
+			return "badcase"
+		}
+		n, _ := strconv.ParseInt(f[2], 10, 64)
+		return rerrRun(f[1], n, vh.UnHex(f[3]), f[4:])
 	case "vsrc":
 		return vsrcRun(f)
 	case "ctag":
